@@ -144,13 +144,10 @@ Theorem abort_runs_setup_and_cleanup (P : program) f t su cl w w0 : run_setup su
 Proof. intros H. cbn [exec]. rewrite H. reflexivity. Qed.
 
 (* a despawned entity is dead (whatever it was) *)
+Lemma alive_dsp_data_xlocals0 e v : alive (dsp_xlocals e (dsp_data e v)) = alive v.
+Proof. unfold dsp_xlocals, dsp_data. destruct (alookup e (dataents v)) as [[? ? ?|? ? ? ?|? [?|]]|]; reflexivity. Qed.
 Lemma dead_after_despawn e w : is_alive e (despawn e w) = false.
 Proof.
   unfold despawn. destruct (is_alive e w) eqn:Ha; cbn [negb]; [|exact Ha].
-  pose proof (dataents_alive_before_dsp_data e w) as (A & _ & _). cbn zeta in A.
-  set (w5 := dsp_tracker e (dsp_ereactors e (dsp_storage e (dsp_comps e (dsp_alive e w))))) in *.
-  unfold dsp_xlocals, dsp_data, is_alive. cbn [alive set].
-  assert (HA : alive (match alookup e (dataents w5) with Some d => drop_ddata d w5 | None => w5 end) = alive w5).
-  { destruct (alookup e (dataents w5)) as [[? ? ?|? ? ? ?|? [?|]]|]; reflexivity. }
-  rewrite HA, A. apply memN_removeN_same.
+  unfold is_alive. rewrite alive_dsp_data_xlocals0, (proj1 (dataents_alive_before_dsp_data e w)). apply memN_removeN_same.
 Qed.
